@@ -218,19 +218,41 @@ def stylesheet_text_family(res, wd, quick):
         raise vlib.Infra("MC_StylesheetText failed:\n" + r["out"][-3000:])
     res.add_mc(r, "MC_StylesheetText (laws of StylesheetTree on every content sequence of length <= %d; the sequences are the conformance cases)" % maxlen)
     raws = sorted((st["raw"] for st in tlaparse.read_dump(dump + ".dump", only={"raw"})), key=lambda x: json.dumps(x, sort_keys=True))
-    combos = [(raw, pres) for raw in raws for pres in (False, True)]
+    # (raw, xml:space on the element, xml:space on the xsl:stylesheet element of ITS document, where that document stands, xml:space on the
+    #  xsl:stylesheet element of the including / importing document)
+    combos = [(raw, "preserve" if pres else "none", "none", "main", "none") for raw in raws for pres in (False, True)]
+    short = [raw for raw in raws if len(raw) <= 3]
+    for place in ("main", "included", "imported"):
+        for docsp in ("none", "preserve", "default"):
+            for outer in (("none",) if place == "main" else ("none", "preserve")):
+                if place == "main" and docsp == "none":
+                    continue
+                for csp in ("none", "preserve", "default"):
+                    for raw in (short if (csp != "default" or docsp == "preserve") else short[::3]):
+                        combos.append((raw, csp, docsp, place, outer))
 
     def item(x):
         if x["k"] == "t": return escape("".join(map(chr, x["s"])))
         if x["k"] == "xt": return "<xsl:text>%s</xsl:text>" % escape("".join(map(chr, x["s"])))
         return {"c": "<!-- c -->", "pi": "<?p d?>", "e": "<e/>"}[x["k"]]
+    sp = lambda v: "" if v == "none" else ' xml:space="%s"' % v
+    ctext = lambda raw, csp: "<c%s>%s</c>" % (sp(csp), "".join(item(x) for x in raw))
     sdir = os.path.join(wd, "sttext.d"); os.makedirs(sdir)
     open(os.path.join(sdir, "in.xml"), "w").write("<r/>")
-    chunks = [combos[i:i + 50] for i in range(0, len(combos), 50)]
+    groups = {}
+    for cb in combos:
+        groups.setdefault(cb[2:], []).append(cb)
+    chunks = [(key, g[i:i + 50]) for key, g in sorted(groups.items()) for i in range(0, len(g), 50)]
+    XSLNS = 'xmlns:xsl="http://www.w3.org/1999/XSL/Transform"'
     cases = []
-    for k, ch in enumerate(chunks):
-        body = "".join("<c%s>%s</c>" % (' xml:space="preserve"' if pres else "", "".join(item(x) for x in raw)) for raw, pres in ch)
-        open(os.path.join(sdir, "s%d.xsl" % k), "w").write('<xsl:stylesheet version="1.0" xmlns:xsl="http://www.w3.org/1999/XSL/Transform"><xsl:template match="/"><o>%s</o></xsl:template></xsl:stylesheet>' % body)
+    for k, ((docsp, place, outer), ch) in enumerate(chunks):
+        body = "".join(ctext(raw, csp) for raw, csp, _, _, _ in ch)
+        if place == "main":
+            open(os.path.join(sdir, "s%d.xsl" % k), "w").write('<xsl:stylesheet version="1.0" %s%s><xsl:template match="/"><o>%s</o></xsl:template></xsl:stylesheet>' % (XSLNS, sp(docsp), body))
+        else:
+            open(os.path.join(sdir, "m%d.xsl" % k), "w").write('<xsl:stylesheet version="1.0" %s%s><xsl:template name="m"><o>%s</o></xsl:template></xsl:stylesheet>' % (XSLNS, sp(docsp), body))
+            open(os.path.join(sdir, "s%d.xsl" % k), "w").write('<xsl:stylesheet version="1.0" %s%s><xsl:%s href="m%d.xsl"/><xsl:template match="/"><xsl:call-template name="m"/></xsl:template></xsl:stylesheet>'
+                                                               % (XSLNS, sp(outer), "include" if place == "included" else "import", k))
         cases.append({"id": k, "dir": sdir, "xsl": "s%d.xsl" % k, "trace": "none", "select": False})
     exe = vlib.build_harness("xslt")
     cp_ = os.path.join(sdir, "cases.ndjson"); vlib.write_ndjson(cp_, cases)
@@ -244,14 +266,14 @@ def stylesheet_text_family(res, wd, quick):
         if ev.get("e") == "Done":
             dones[ev["id"]] = ev
     events = []
-    for k, ch in enumerate(chunks):
+    for k, ((docsp, place, outer), ch) in enumerate(chunks):
         dn = dones.get(k)
         if dn is None or dn["status"] != 0:
             res.violation("stylesheet-text family: transformation %s (rc=%s): %s" % ("failed: " + dn["msg"][:150] if dn else "died", out.returncode, out.stderr[-200:]),
                           [{"xsl": open(os.path.join(sdir, "s%d.xsl" % k)).read()}]); continue
         o = [x for x in dn["tree"] if x["k"] == "elem" and x["qn"] == "o"][0]
         cs = [x for x in o["c"] if x["k"] == "elem"]
-        for (raw, pres), c in zip(ch, cs):
+        for (raw, csp, _, _, _), c in zip(ch, cs):
             got = []
             for y in c["c"]:
                 if y["k"] == "text":
@@ -263,8 +285,9 @@ def stylesheet_text_family(res, wd, quick):
                     got.append({"k": "elem"})
                 else:
                     got.append({"k": y["k"]})
-            events.append({"e": "StText", "raw": raw, "preserve": pres, "got": got, "family": "sttext",
-                           "text": "<c%s>%s</c>" % (' xml:space="preserve"' if pres else "", "".join(item(x) for x in raw))})
+            events.append({"e": "StText", "raw": raw, "chain": [docsp, csp], "place": place, "outer": outer, "got": got, "family": "sttext",
+                           "text": "%s in a %s document with%s on xsl:stylesheet%s" % (ctext(raw, csp), place, sp(docsp) or " nothing",
+                                                                                    "" if place == "main" else ", which a document with%s %ss" % (sp(outer) or " nothing", place[:-2]))})
     rejects, st = vlib.tlc_validate_sharded(TRACE_ST, events, tag="c01st", stateless=True, timeout=3000)
     known = {k["key"]: k for k in vlib.known_findings(PROP)}
     for rj in rejects:
